@@ -379,6 +379,14 @@ func genDoc(r *rand.Rand, kind string) *wcase {
 		}
 		w.Texts = append(w.Texts, []byte(t))
 	}
+	if kind == "docchunk" && r.Intn(4) == 0 {
+		// empty paragraph elements (a page that opens with one, one between two texts)
+		w.Texts = append([][]byte{{}}, w.Texts...)
+		if len(w.Texts) > 2 && r.Intn(2) == 0 {
+			k := 1 + r.Intn(len(w.Texts)-1)
+			w.Texts = append(w.Texts[:k:k], append([][]byte{{}}, w.Texts[k:]...)...)
+		}
+	}
 	w.PerPage = 1 + r.Intn(4)
 	return w
 }
